@@ -25,6 +25,7 @@ class plurality_run_step:
     returns = Profile
     forall = dict(k=Seq(CSet))
     pure_unless = "store_states"  # frame (C09): nothing of self is stored outside `if store_states:`
+    modifies = ("election_states",)  # the frame callers rely on: every other field keeps its entry value (obligation frame[self.<f> unchanged])
 
     def requires(self, profile, prev_state, store_states):
         return (all_nonneg(profile.ballots, len(profile.ballots)) and distinct(profile.candidates, len(profile.candidates))
@@ -78,6 +79,7 @@ class borda_run_step:
     returns = Profile
     forall = dict(k=Seq(CSet))
     pure_unless = "store_states"  # frame (C09): nothing of self is stored outside `if store_states:`
+    modifies = ("election_states",)  # the frame callers rely on: every other field keeps its entry value (obligation frame[self.<f> unchanged])
 
     def requires(self, profile, prev_state, store_states):
         return (all_nonneg(profile.ballots, len(profile.ballots)) and distinct(profile.candidates, len(profile.candidates))
@@ -132,6 +134,7 @@ class rating_run_step:
     returns = Profile
     forall = dict(k=Seq(CSet))
     pure_unless = "store_states"  # frame (C09): nothing of self is stored outside `if store_states:`
+    modifies = ("election_states",)  # the frame callers rely on: every other field keeps its entry value (obligation frame[self.<f> unchanged])
 
     def requires(self, profile, prev_state, store_states):
         return (all_nonneg(profile.ballots, len(profile.ballots)) and distinct(profile.candidates, len(profile.candidates))
